@@ -110,7 +110,7 @@ func laddr(a common.Address) *common.Address { return &a }
 type lfixture struct {
 	counter, recorder common.Address
 	asset0            common.Hash // code of the asset created in block 2
-	asset0ID          common.Hash // id of the issue in block 3 (V holds 1000 units)
+	asset0ID          common.Hash // id of the units issued in block 3 (V holds 1000); a token asset's id is its code
 	prefixTxs         [][]*types.Transaction
 }
 
@@ -154,7 +154,7 @@ func lFixture() *lfixture {
 	f.asset0 = ca.Hash()
 	b2 = append(b2, ca)
 	iss := lIssue(f.asset0, lV.Addr, "1000", lExp(3, 0))
-	f.asset0ID = iss.Hash()
+	f.asset0ID = f.asset0
 	f.prefixTxs = [][]*types.Transaction{nil, b1, b2, {iss}, nil, nil, nil}
 	lRole[f.counter] = "counter-contract"
 	lRole[f.recorder] = "blockhash-recorder"
@@ -197,7 +197,7 @@ var lLetterNames = []string{
 	"tXC1", "tVX", "vVC1", "vVC3", "vVD0",
 	"rC2", "rC2f", "xC2", "uC2", "xC1", "xC3", "xD0", "xD3", "uC1",
 	"s0", "s1",
-	"cA", "iA", "iA0", "tA0", "fA0",
+	"cA", "iA", "pA", "mA", "tA", "iA0", "tA0", "tUA0", "fA0",
 	"kH", "kC", "cK", "kK",
 }
 
@@ -271,8 +271,29 @@ func lTx(name string, hist []string, h int, i int) *types.Transaction {
 			code = c.Hash()
 		}
 		return lIssue(code, lV.Addr, "77", exp)
+	case "pA", "mA": // the issuer replenishes / changes the profile of the asset of the nearest earlier cA
+		code := common.HexToHash("0xa55e7")
+		if c := earlier("cA"); c != nil {
+			code = c.Hash()
+		}
+		if name == "pA" {
+			d, _ := json.Marshal(map[string]interface{}{"assetCode": code, "assetId": code, "replenishAmount": "9"})
+			return node.Tx(node.TxSpec{Type: params.ReplenishAssetTx, From: lX, To: laddr(lV.Addr), Data: d, Exp: exp})
+		}
+		d, _ := json.Marshal(map[string]interface{}{"assetCode": code, "updateProfile": map[string]string{"description": "new"}})
+		return node.Tx(node.TxSpec{Type: params.ModifyAssetTx, From: lX, Data: d, Exp: exp})
+	case "tA": // V passes on units of the asset of the nearest earlier cA (issued to V by iA)
+		id := common.HexToHash("0xa55e7")
+		if c := earlier("cA"); c != nil {
+			id = c.Hash()
+		}
+		d, _ := json.Marshal(map[string]interface{}{"assetId": id, "transferAmount": "7"})
+		return node.Tx(node.TxSpec{Type: params.TransferAssetTx, From: lV, To: laddr(lU.Addr), Data: d, Exp: exp})
 	case "iA0":
 		return lIssue(f.asset0, lU.Addr, "9", exp)
+	case "tUA0": // U passes on units of the prefix asset (it holds some after iA0)
+		d, _ := json.Marshal(map[string]interface{}{"assetId": f.asset0ID, "transferAmount": "5"})
+		return node.Tx(node.TxSpec{Type: params.TransferAssetTx, From: lU, To: laddr(lX.Addr), Data: d, Exp: exp})
 	case "tA0":
 		d, _ := json.Marshal(map[string]interface{}{"assetId": f.asset0ID, "transferAmount": "30"})
 		return node.Tx(node.TxSpec{Type: params.TransferAssetTx, From: lV, To: laddr(lU.Addr), Data: d, Exp: exp})
@@ -464,7 +485,6 @@ type lchain struct {
 	packaged [][]string
 	noBlock  string // the reference miner produced no block at this point: "h=..: err"
 	siblings map[int][]*types.Block
-	fails    lFail
 }
 
 var lPrefixBlocks []*types.Block // heights 0..lPrefix as mined by the first reference node of this worker (they never change)
@@ -499,7 +519,7 @@ func lConfirmsOf(n *lnode, b *types.Block) []types.SignData {
 // before the next is mined. The returned node holds the whole chain (caller destroys it).
 func lBuild(hist []string) (*lchain, *lnode) {
 	f := lFixture()
-	c := &lchain{hist: hist, siblings: map[int][]*types.Block{}, fails: lFail{}}
+	c := &lchain{hist: hist, siblings: map[int][]*types.Block{}}
 	n := lNewNode()
 	g := n.BC.Genesis()
 	add := func(b *types.Block, who *node.Key) {
@@ -606,7 +626,7 @@ func lProbe() {
 				fmt.Printf("%-8v %-22s miner=%-5v %s\n", time.Since(t1).Round(time.Millisecond), p.Kind, p.Miner, scriptString(p.Script))
 			}
 		}
-		fmt.Printf("%d paths in %v\n", len(paths), time.Since(t0))
+		fmt.Printf("%d paths in %v %v\n", len(paths), time.Since(t0), lTimes)
 		for _, v := range r.Violations {
 			fmt.Printf("VIOLATION %s\n  %s\n", v.Fingerprint, v.What)
 		}
